@@ -21,6 +21,15 @@ ERASE_METHODS = (
     "std::borrow::Borrow::borrow",
     "std::string::String::as_str",
     "std::boxed::Box::<T>::new",
+    # borrowed views of an Option / Result / String: the same value for every test and projection made on it
+    "std::option::Option::<T>::as_ref",
+    "std::option::Option::<T>::as_mut",
+    "std::option::Option::<T>::as_deref",
+    "std::option::Option::<T>::as_deref_mut",
+    "std::result::Result::<T, E>::as_ref",
+    "std::result::Result::<T, E>::as_mut",
+    "std::string::String::as_mut_str",
+    "std::borrow::Cow::<'_, B>::into_owned",
 )
 
 
